@@ -68,6 +68,10 @@ for f in sorted(glob.glob(root + '/evidence/C*.json')):
     rows.append('| %s | %d | %d | %d | %d | %d | %d | %.0f s |' % (ev['property_id'], len(c.get('functions_under_contract', [])), c.get('obligations', 0), c.get('discharged', 0), len(c.get('bounded') or []), len(c.get('known_findings_open') or []), c.get('path_vcs', 0), ev.get('wall_s', 0)))
 block('STATUS', '\n'.join(rows))
 
+import subprocess
+n = sum(1 for l in open('/repo/verif_contracts.go') if l.startswith('//@ fn '))
+block('FNCOUNT', str(n))
+
 nr = json.load(open(root + '/notreached.json'))
 block('NOTREACHED', '\n'.join('* **%s** %s' % (k, v) for k, v in sorted(nr.items())))
 open(root + '/DESIGN.md', 'w').write(s)
